@@ -491,7 +491,7 @@ func C07(c *hx.Ctx) {
 		rs = append(rs, rcase{"corpus/" + f.Name, f.Stream, f.Plain, true})
 	}
 	for _, n := range []string{"a.lzma", "a_eos.lzma", "a_eos_and_size.lzma", "a_lp1_lc2_pb1.lzma"} {
-		b, e := os.ReadFile("/repo/lzma/examples/" + n)
+		b, e := os.ReadFile(hx.RepoDir + "/lzma/examples/" + n)
 		if e != nil {
 			continue
 		}
